@@ -24,7 +24,7 @@ SPEC = {
              '-> sink lines with failures and quality-changing callbacks; after EVERY event the sensor data, '
              'last_sense and the callback log are compared with the independently computed sampling schedule and '
              'the values captured at dispatch; a case is one configuration; non-trivial = more measurements than '
-             'the data capacity (trimming happened) or an output-part sensor skipped parts'),
+             'the data capacity (trimming happened) or an output-part sensor skipped parts; also: batches in front of the part sensor, kept value lists re-read after later measurements, on-sense callbacks that fail once, long histories'),
     'floors': {'quick': {'measurements_checked': 20000, 'trimmed_measurements': 3000, 'callback_calls_checked': 10000,
                          'cms_deliveries_checked': 3000, 'part_measurements_checked': 2000, 'parts_skipped': 1000},
                'thorough': {'measurements_checked': 500000, 'trimmed_measurements': 75000,
